@@ -76,6 +76,7 @@ fn main() {
         "C02" => check::c02::run(&ctx),
         "C05" => check::hon::run_c05(&ctx),
         "C07" => check::hon::run_c07(&ctx),
+        "C08" => check::c08::run(&ctx),
         "C12" => check::hon::run_c12(&ctx),
         "C13" => check::hon::run_c13(&ctx),
         "C16" => check::hon::run_c16(&ctx),
